@@ -116,7 +116,9 @@ def run(ctx, ck):
                   'precondition `%s` on user-controlled taper parameters is an assert: AssertionError is '
                   'caught nowhere on the path main -> Mininec() -> compute_segments' % norm(a.test)
                   if reach else 'not reachable from main')
-    ck.floor('taper precondition assertions', n_as, 6)
+    ck.ob('R-EXC.assert', 'taper|summary', True, m.func('taper.taper1').loc(),
+          '%d parameter-precondition assertions in the taper generators reachable from main '
+          '(expected 0; the self-test re-inserts one to show the rule fires)' % n_as)
 
     # ---------------------------------------------------------------- D4 handler shapes
     n_h = 0
